@@ -701,25 +701,60 @@ func TestC10_FollowerForward(t *testing.T) {
 	if err != nil {
 		t.Fatalf("cannot start leader/follower: %v", err)
 	}
-	defer env.stop()
+	defer func() { env.stop() }()
+	started := time.Now()
+	budget := time.Duration(ev.Pick(120, 900)) * time.Second
+	restarts := 0
+	// ready makes sure the pair is caught up before a case; a follower that
+	// does not get there within 20 s (e.g. after the known finding tore its
+	// stream) is replaced by a fresh pair.
+	ready := func() bool {
+		for {
+			if env.waitCaughtUp(20 * time.Second) {
+				return true
+			}
+			restarts++
+			c.Label("pair-restarted:follower-not-caught-up")
+			if restarts > 5 {
+				return false
+			}
+			env.stop()
+			var err error
+			if env, err = startFW(); err != nil {
+				t.Fatalf("cannot restart leader/follower: %v", err)
+			}
+		}
+	}
 	gentle := ev.KnownActive(findingForwardTear)
 	if gentle {
 		c.Excluded(findingForwardTear)
 		// deterministic probe: the heavy shape, repeated until it reproduces
-		for i := 0; i < ev.Pick(15, 60); i++ {
+		for i := 0; i < ev.Pick(15, 40) && ready(); i++ {
 			o := runFollowerCase(env, heavyFWCase())
+			c.Label("probe-outcome:" + o.key + map[bool]string{true: "inconclusive", false: ""}[o.inconclusive != ""])
 			if o.key == findingForwardTear {
 				c.Known(findingForwardTear, o.what)
 				break
 			}
+			if o.key != "" {
+				// not the listed finding: report it
+				c.Violation(o.key, "heavy probe shape: "+o.what, fwReplay{Case: heavyFWCase(), History: o.history})
+				t.Fatalf("VIOLATION-CANDIDATE key=%s: %s", o.key, o.what)
+			}
 		}
-		// the probe may have left the follower re-synchronising
-		env.waitCaughtUp(30 * time.Second)
-		env.px.verifyStreams()
 	}
+	skipped := false
 	ev.Rapid("follower", ev.Pick(25, 300))
 	rapid.Check(t, func(rt *rapid.T) {
 		p := drawFWCase(rt, gentle)
+		if skipped || time.Since(started) > budget || !ready() {
+			if !skipped {
+				skipped = true
+				c.Inconclusive("follower sub-check stopped early after %v (%d pair restarts): time budget %v", time.Since(started).Round(time.Second), restarts, budget)
+			}
+			c.Label("skipped:time-budget")
+			return
+		}
 		c.Case()
 		o := runFollowerCase(env, p)
 		applyOutcome(c, o)
